@@ -33,7 +33,8 @@ DeclL(p, v) == [p |-> p, v |-> v, semi |-> FALSE, id |-> <<>>]
 Rule(sel, decls) == [t |-> "rule", sel |-> sel, decls |-> decls, id |-> <<>>]
 At(name, pre, kind, body) == [t |-> "at", name |-> name, pre |-> pre, kind |-> kind, body |-> body, id |-> <<>>]
 Import(form, path, layer, supp, media) ==
-    [t |-> "import", form |-> form, path |-> path, layer |-> layer, supports |-> supp, media |-> media, id |-> <<>>]
+    [t |-> "import", form |-> form, path |-> path, layer |-> layer, sub |-> "", supports |-> supp, media |-> media, id |-> <<>>]
+ImportSub(form, path, layer, sub, supp, media) == [Import(form, path, layer, supp, media) EXCEPT !.sub = sub]
 Frame(sel, decls) == [sel |-> sel, decls |-> decls, id |-> <<>>]
 
 Red == <<Decl("color", <<I("red", FALSE)>>)>>
@@ -93,7 +94,7 @@ FSel(lazy) == UNION { Wrappers(Rule(s, Red)) : s \in SelFew \cup SelNested(0) } 
 
 -----------------------------------------------------------------------------
 (* values and numbers: n indexes the harness's numeric pool *)
-Pool == 1..28
+Pool == (1..28) \cup {31}
 ValShapes(d) == { <<d>>, <<Num(2, FALSE), [d EXCEPT !.w = TRUE]>>, <<d, Dim(3, "px", TRUE)>>,
                   <<Fn("calc", <<d, Dl("+", TRUE), Dim(3, "px", TRUE)>>, FALSE)>>,
                   <<Fn("calc", <<Dim(3, "px", FALSE), Dl("-", TRUE), [d EXCEPT !.w = TRUE]>>, FALSE)>>,
@@ -184,6 +185,11 @@ HostRules == { Rule(HostSel, HD), Rule(<<Col(FALSE), I("HOST", FALSE)>>, HD), Ru
                Rule(<<Col(FALSE), Fn("host", <<Dl(".", FALSE), I("x", FALSE)>>, FALSE)>>, HD),
                Rule(HostSel \o <<Dl(".", TRUE), I("a", FALSE)>>, HD), Rule(HostSel \o <<Com(FALSE), Dl(".", FALSE), I("a", FALSE)>>, HD),
                Rule(HostSel \o <<Col(FALSE), I("hover", FALSE)>>, HD),
+               (* :host further on in the selector list is a combination as well (dropped with a warning); ::host is not :host *)
+               Rule(<<Dl(".", FALSE), I("a", FALSE), Col(TRUE), I("host", FALSE)>>, HD),
+               Rule(<<Dl(".", FALSE), I("a", FALSE), Com(FALSE), Col(TRUE), I("host", FALSE)>>, HD),
+               Rule(<<I("div", FALSE), Col(FALSE), I("HOST", FALSE)>>, HD),
+               Rule(<<I("div", FALSE), Col(FALSE), Col(FALSE), I("host", FALSE)>>, HD),
                (* a {..} block inside the declarations of the :host rule: its `}` does not end the rule *)
                Rule(HostSel, <<Decl("--x", <<Cur(<<I("a", FALSE), Col(FALSE), I("b", TRUE)>>, TRUE)>>), Decl("width", <<Dim(3, "rpx", FALSE)>>)>>),
                Rule(HostSel, <<Decl("color", <<I("red", FALSE)>>), DeclL("--y", <<Cur(<<Cur(<<>>, FALSE), Dim(3, "rpx", TRUE)>>, FALSE)>>)>>) }
@@ -210,7 +216,11 @@ FImport(lazy) == { <<Import(f, p, l, s, m)>> : f \in {"string", "url"}, p \in Im
                              <<Par(<<I("min-width", FALSE), Col(FALSE), Dim(3, "rpx", TRUE)>>, TRUE)>>,
                              <<I("print", TRUE), Com(FALSE), I("screen", TRUE), I("and", TRUE), Par(<<I("orientation", FALSE), Col(FALSE), I("landscape", TRUE)>>, TRUE)>> } }
            \cup { <<Ord("a"), Import("string", p, "none", <<>>, <<>>)>> : p \in ImportPaths }
-           \cup { <<Import("STRING", p, l, <<>>, <<>>)>> : p \in {"a.wxss", "a%20b"}, l \in {"none", "x"} }      \* @IMPORT
+           \cup { <<Import("STRING", p, l, s, m)>> : p \in {"a.wxss", "a%20b"}, l \in {"none", "", "x"},      \* @IMPORT .. LAYER(x) SUPPORTS(..)
+                     s \in {<<>>, <<I("display", FALSE), Col(FALSE), I("grid", TRUE)>>}, m \in {<<>>, <<I("screen", TRUE)>>} }
+           (* dotted layer names (sub-layers) *)
+           \cup { <<ImportSub(f, "a", "base", "comp", s, m)>> : f \in {"string", "url", "STRING"},
+                     s \in {<<>>, <<Fn("selector", <<Dl(".", FALSE), I("k", FALSE)>>, FALSE)>>}, m \in {<<>>, <<I("screen", TRUE)>>} }
            (* an import after block at-rules only (no style rule before it) is "after other rules" too *)
            \cup { <<n, Import("string", "a", "none", <<>>, <<>>)>> : n \in NoRules }
            \cup { <<At("media", <<I("screen", TRUE)>>, "rules", <<Ord("m")>>), Import("url", "b", "x", <<>>, <<I("print", TRUE)>>)>>,
